@@ -554,7 +554,7 @@ def _one(ctx, spec, states, n, T, seed, run, profile) -> bool:
                     if fp or fn:
                         stats["probe/joint_distribution_under_detection_errors"] += 1
     # --------------------------- C11: stochastic noise means several trajectories
-    if stochastic and legacy is not None and spec["noise"].get("runs", 1) >= 2 and "initial_amplitudes" not in spec:
+    if stochastic and legacy is not None and spec["noise"].get("runs", 1) >= 2 and "initial_amplitudes" not in spec and T <= 700:
         # With per-run random noise both emulators must average over the requested
         # runs: the legacy one then returns sampled (Noisy) results, never the
         # pure state of a single random trajectory.
